@@ -8,6 +8,8 @@ import ConfModel.Lemmas.Report
 import ConfModel.Lemmas.ReportScript
 import ConfModel.Lemmas.RunLoop
 import ConfModel.Lemmas.FeedbackRun
+import ConfModel.Lemmas.ReportMsg
+import ConfModel.Model.FeedbackLineRepair
 import ConfModel.Model.Cli
 import ConfModel.Props.C10
 import ConfModel.Props.C11
@@ -300,6 +302,72 @@ theorem script_report_spec (steps : List Step) (extra : Nat)
   refine ⟨h1, h2, ?_, ?_⟩
   · rw [← h3]; exact hn _
   · rw [← h4]; exact hn _
+
+/-! ### What a peer SAYS never changes what happened
+
+The message of a client-reported error and the feedback text of a reference peer are arbitrary
+strings — empty, blank, many lines, format verbs, very long.  `ConfModel.ReportMsg` is the model of
+results.go that keeps them (error VALUES built as the Go code builds them, `report` looking at them
+with `!= nil` and `errors.As` only).  Its report is the report of the text-free model on the same
+calls, for all texts; hence verdict, totals and names do not depend on any text. -/
+
+open ConfModel.ReportMsg in
+/-- `report` with the texts = `report` of the text-free view (outcome map and sideband) -/
+theorem report_texts_erased (mk : Marks) (total : Nat) (os : MOutcomes) (sb : Sideband) :
+    ReportMsg.report mk total os sb = Report.report mk total (eraseAll os) (eraseSb sb) :=
+  report_erase mk total os sb
+
+open ConfModel.ReportMsg in
+/-- **report_message_irrelevant.**  Two states of `testResults` that differ only in texts — the same
+names with the same kinds of error values, flags and feedback for the same names, but any messages
+whatsoever — are reported identically: same verdict, same totals, same FAILED / INFO names. -/
+theorem report_message_irrelevant (mk : Marks) (total : Nat) (os₁ os₂ : MOutcomes) (sb₁ sb₂ : Sideband)
+    (hos : eraseAll os₁ = eraseAll os₂) (hsb : sb₁.map (·.1) = sb₂.map (·.1)) :
+    ReportMsg.report mk total os₁ sb₁ = ReportMsg.report mk total os₂ sb₂ := by
+  have e : ∀ sb : Sideband, eraseSb sb = (sb.map (·.1)).map (fun n => (n, feedbackMsg)) := by
+    intro sb; simp [eraseSb, mapVals]
+  rw [report_erase, report_erase, hos, e sb₁, e sb₂, hsb]
+
+open ConfModel.ReportMsg in
+/-- **The call script with texts realises the text-free script**, for every assignment of messages
+to the client-reported errors and to the peers' feedback. -/
+theorem script_report_texts (total : Nat) (steps : List MStep) :
+    ReportMsg.scriptReport total steps = Report.scriptReport total (steps.map (·.s)) := by
+  have h := erase_runSteps (marksOf (steps.map (·.s.c))) steps
+  have h1 := congrArg Prod.fst h
+  have h2 := congrArg Prod.snd h
+  simp only [] at h1 h2
+  simp only [ReportMsg.scriptReport, Report.scriptReport, report_erase, h1, h2, List.map_map, Function.comp_def]
+
+open ConfModel.ReportMsg in
+/-- **report_message_irrelevant (call scripts).**  Two runs that differ only in what the peers said
+(the same cases, kinds, marks, feedback flags and call order) produce the same report. -/
+theorem script_message_irrelevant (total : Nat) (steps₁ steps₂ : List MStep)
+    (h : steps₁.map (·.s) = steps₂.map (·.s)) :
+    ReportMsg.scriptReport total steps₁ = ReportMsg.scriptReport total steps₂ := by
+  rw [script_report_texts, script_report_texts, h]
+
+open ConfModel.ReportMsg in
+/-- A client-reported error is a failure whatever its message (the empty one included): unmarked it
+is classified `failed`, marked known-failing / known-flaky `info`; it is never a pass. -/
+theorem client_error_never_passes (msg : String) (knownFailing knownFlaky : Bool) :
+    ReportMsg.classify ⟨some (.leaf .clientError msg), false, knownFailing, knownFlaky⟩ =
+      (if knownFailing || knownFlaky then .info else .failed) := by
+  cases knownFailing <;> cases knownFlaky <;> rfl
+
+open ConfModel.ReportMsg in
+/-- `report_message_irrelevant` / `script_message_irrelevant` on concrete runs: a client error with an
+empty message and feedback with an empty text against ordinary ones -/
+example :
+    let a : Case := ⟨"a", .clientErr, .unmarked, false⟩
+    let b : Case := ⟨"b", .pass, .failing, true⟩
+    let quiet : List MStep := [⟨⟨a, false⟩, "", ""⟩, ⟨⟨b, true⟩, " \r\n\t\n", ""⟩]
+    let loud : List MStep := [⟨⟨a, false⟩, "could not connect: %s", "x"⟩, ⟨⟨b, true⟩, "y", "expected compression gzip"⟩]
+    quiet.map (·.s.c.name) = loud.map (·.s.c.name) ∧
+    (ReportMsg.scriptReport 2 quiet).ok = false ∧ (ReportMsg.scriptReport 2 quiet).failedNames = ["a"] ∧
+    (ReportMsg.scriptReport 2 quiet).infoNames = ["b"] ∧ (ReportMsg.scriptReport 2 loud).failedNames = ["a"] ∧
+    eraseAll [("a", ⟨some (.leaf .clientError ""), false, false, false⟩)] =
+      eraseAll [("a", ⟨some (.wrap "fb" (.leaf .clientError "boom")), false, false, false⟩)] := by decide
 
 /-- Before the repair (F03) the verdict ignored cases that could not be run or never produced
 an outcome: one passing case of three selected ones was reported as success. -/
@@ -856,6 +924,36 @@ example :
     Run mk (fbWorld good) = false ∧ Run mk (fbWorld mangled) = true ∧ Run mk (fbWorld []) = true ∧
     ServerRunner.Spec.noSep "S/50%off".toList = true ∧ startsClean "S/50%off".toList = true ∧
     markOf mk "S/50%off" = .unmarked := by decide
+
+/-- a batch of two passing cases with the given names whose reference server wrote `line` -/
+def fbWorldN (n0 n1 : String) (line : List Char) : List Client :=
+  [{ startErr := false, waitErr := false
+     batches := [{ noticed := false
+                   s := { cases := [.answer .pass true, .answer .pass true], isRef := true, useTLS := false,
+                          startErr := false, writeErr := false, closeErr := false, resp := .ok, dies := none,
+                          names := [n0.toList, n1.toList], stderr := line } }] }]
+
+open ConfModel.FeedbackLine in
+/-- **Finding F32 (known, not repaired): feedback for a test case whose name contains `": "` is lost.**
+Test names are not validated anywhere; `S/x: y` is a name a `--test-file` may use.  The reference
+server's printer writes the complaint correctly (`prefixLine`), but the runner's reader splits the line
+at the FIRST `": "`: the front part `S/x` is not a test case of the batch, the line is forwarded as
+noise, nothing is recorded — and the run SUCCEEDS although the reference server complained about an
+unmarked case (hypothesis `noSep` of `feedback_line_fails` fails, and so does its conclusion).  If the
+batch also holds a case named by the front part, the complaint is recorded for THAT case.  A reader
+that looks for the batch's names as prefixes of the line (`FeedbackLineRepair.lineAct`, longest name
+first) attributes the same line correctly. -/
+theorem feedback_sep_name_witness :
+    let mk : Marks := { failing := fun _ => false, flaky := fun _ => false }
+    let msg := "client sent another request (#2) for the same test case"
+    let line := prefixLine "S/x: y".toList msg.toList
+    ServerRunner.Spec.noSep "S/x: y".toList = false ∧
+    readStream ["S/x: y".toList, "S/other".toList] line = ([line], []) ∧
+    Run mk (fbWorldN "S/x: y" "S/other" line) = true ∧
+    (readStream ["S/x: y".toList, "S/x".toList] line).2 = [("S/x".toList, ("y: " ++ msg).toList)] ∧
+    FeedbackLineRepair.lineAct ["S/x: y".toList, "S/x".toList] line = .record "S/x: y".toList msg.toList ∧
+    FeedbackLineRepair.lineAct ["S/x: y".toList, "S/other".toList] line = .record "S/x: y".toList msg.toList := by
+  decide
 
 /-- **The defect the two repairs removed (F03 + F04).**  With the verdict expression of the
 unrepaired `report` (`failed == 0`) and a liveness check that never notices a clean exit (the
